@@ -3,7 +3,7 @@
 Spec:  MC_LazyList -- Impl (memoising cursor, method by method) refines Abs
        (plain list) for every source <= 3 over {0,1,2} and every history.
 Bind:  spec -> code: every observation path of length <= k over the
-       specification's 28 parametrised operations is stepped through a fresh
+       specification's 33 parametrised operations is stepped through a fresh
        real LazyList; code -> spec: the logged answers and caches are
        validated by Trace_LazyList (Prop_C13 on the answers, lock-step cache
        conformance).
@@ -30,6 +30,7 @@ OPS = (
     + [O("Len"), O("Iter"), O("Bool"), O("Listify"), O("Reversed"), O("Copy")]
     + [O("Contains", 0), O("Contains", 2), O("Eq", 0), O("Eq", 1), O("Count", 1)]
     + [O("HasInd", i) for i in (0, 2, 3)]
+    + [O("IterTake", 1), O("IterDrain"), O("CopyIndex", 0), O("CopyIndex", 1), O("CopyList")]
 )
 
 
@@ -49,10 +50,28 @@ def tag(v):
     return {"e": "type:" + type(v).__name__}
 
 
-def do_op(L, src, o):
+def do_op(L, src, o, aux=None):
     from vyxal.helpers import deep_copy
 
+    aux = aux if aux is not None else {}
     op, a, b, c = o["op"], o["a"], o["b"], o["c"]
+    if op in ("IterTake", "IterDrain"):
+        if aux.get("it") is None:
+            aux["it"] = iter(L)
+        out = []
+        n = a if op == "IterTake" else 10 ** 6
+        for _ in range(n):
+            try:
+                out.append(next(aux["it"]))
+            except StopIteration:
+                break
+        if op == "IterDrain":
+            aux["it"] = None
+        return out
+    if op in ("CopyIndex", "CopyList"):
+        if aux.get("cp") is None:
+            aux["cp"] = deep_copy(L)
+        return aux["cp"][a] if op == "CopyIndex" else aux["cp"].listify()
     if op == "Index":
         return L[a]
     if op == "NegIndex":
@@ -92,9 +111,10 @@ def run_path(case):
 
     L = LazyList(iter(list(src)))
     ops = []
+    aux = {}
     for o in path:
         try:
-            res = common.with_alarm(lambda _: tag(do_op(L, src, o)), None, 5)
+            res = common.with_alarm(lambda _: tag(do_op(L, src, o, aux)), None, 5)
         except common.CaseTimeout:
             res = {"e": "hang"}
         except Exception as e:  # noqa: BLE001
@@ -121,8 +141,10 @@ def cases(tier, rng):
         path = []
         for _ in range(rng.randint(3, 12)):
             o = dict(rng.choice(OPS))
-            if o["op"] in ("Index", "HasInd"):
+            if o["op"] in ("Index", "HasInd", "CopyIndex"):
                 o["a"] = rng.randint(0, 10)
+            elif o["op"] == "IterTake":
+                o["a"] = rng.randint(1, 4)
             elif o["op"] == "NegIndex":
                 o["a"] = rng.randint(1, 9)
             elif o["op"] in ("SliceTo",):
@@ -173,7 +195,7 @@ def main(tier):
             "samples": [{"src": src, "history": [f"{p['op']}({p['a']},{p['b']},{p['c']})" for p in path], "verdict": v}
                         for (src, path), v in list(zip(cs, verdicts))[:: max(1, len(cs) // 10)][:10]],
             "evaluations": sum(len(p) for _, p in cs), "distinct_nontrivial": len(cs),
-            "rule": f"every path of length {2 if tier == 'quick' else 3} over the 28 parametrised observations on every "
+            "rule": f"every path of length {2 if tier == 'quick' else 3} over the 33 parametrised observations on every "
                     "source of length 0..3 over {0,1,2} (prefixes covered by the longer paths), plus random histories "
                     "of length 3..12 with random parameters on sources up to length 8; every path is distinct",
             "verdicts": tally, "mc": {"module": "MC_LazyList", "distinct": mc["distinct"], "generated": mc["generated"],
